@@ -77,6 +77,16 @@ def table():
     B('conj', [V(4, v4)])
     B('q2r', [V(4, QU)])
     B('slerp', [V(4, QU), V(4, [1.0, 0, 0, 0]), C(0.3)])
+    # the scalar values implementations answer by a shortcut (end points, exponent 0 / 1, angle 0): the vector arguments are still vectors
+    for s_ in (0, 1, 0.0, 1.0):
+        B('slerp', [V(4, QU), V(4, [1.0, 0, 0, 0]), C(s_)])
+    for n_ in (0, 1, -1):
+        B('qpow', [V(4, v4), C(n_)])
+    B('angvec2r', [C(0.0), V(3, v3)])
+    B('angvec2r', [C(0), V(3, v3)])
+    B('rodrigues', [V(3, [0.6, 0.0, 0.8], lens=(1, 3)), C(0.0)])
+    B('trexp', [V(6, [0.5, -1.0, 0.25, 0.0, 0.6, 0.8], lens=(3, 6)), C(0.0)])
+    B('trexp2', [V(3, [1.0, 2.0, 1.0], lens=(1, 3)), C(0.0)])
     B('matrix', [V(4, v4)])
     B('dot', [V(4, QU), V(3, v3)])
     B('dotb', [V(4, QU), V(3, v3)])
@@ -255,6 +265,29 @@ def vector_forms(ctx, k, K):
                         continue
                     if not same(canon(r), cbi, flat):
                         ctx.fail(cid, site, 'mismatch', P, '%s form of parameter %d gives a different result from the 1-D array form' % (fname, pi))
+            # every OTHER accepted length (1-vectors for the planar / so(2) forms, any length for the generic helpers): the container forms of a
+            # vector of that length give what its 1-D array gives (a (1,1) array is both the row and the column form of a 1-vector)
+            for L in sorted(lens):
+                if L == n or L == 0:
+                    continue
+                alt = (np.arange(L, dtype=float) * 0.1 + 0.2)
+                okL, blL = call(f, *build(pi, lambda: alt.copy()), **kw)
+                if not okL:
+                    continue            # these values are not acceptable at that length (e.g. a non-unit twist with theta): nothing to compare
+                cbL = canon(blL)
+                for fname, mk in forms(kind, alt):
+                    if fname == '1d':
+                        continue
+                    cid = 'C15/%s/p%d/altlen=%d/%s' % (tag, pi, L, fname)
+                    if not ctx.want(cid):
+                        continue
+                    ctx.case(cid, key=cid)
+                    P = dict(entry=site, param=pi, form=fname, length=L)
+                    ok, r = call(f, *build(pi, mk), **kw)
+                    if not ok:
+                        ctx.fail(cid, site, 'raises:' + type(r).__name__, P, '%s form of a %d-vector rejected: %r (the 1-D array form works)' % (fname, L, r))
+                    elif not same(canon(r), cbL, flat):
+                        ctx.fail(cid, site, 'mismatch', P, '%s form of a %d-vector gives a different result from the 1-D array form' % (fname, L))
             # wrong lengths
             for L in range(0, 9):
                 if L in lens:
